@@ -54,7 +54,21 @@ def run_check(prop, tier, seed):
         for f in failed:
             if f.startswith('QscProofs') or f in model_failed:
                 broken.append(dict(kind='proof' if f.startswith('QscProofs') else 'model-build', what=f, detail=core.error_excerpt(log, f)))
-        theorems = spec.get('theorems', [])
+        theorems = list(spec.get('theorems', []))
+        if spec.get('eqv'):
+            # laws of named locals / auxiliary sub-expressions that the current source no longer has are not obligations
+            try:
+                gone = set()
+                for m_ in spec['eqv']:
+                    got = summ.get(m_, {})
+                    for d_ in expd.get(m_, {}).get('optional', []):
+                        if d_ not in got.get('proved', {}) and d_ not in got.get('no_law', {}):
+                            gone.add('Eqv.%s.%s_eqv' % (m_, d_))
+                theorems = [t for t in theorems if t not in gone]
+                if gone:
+                    ev_extra['optional_laws_not_applicable'] = sorted(gone)
+            except Exception:
+                pass
         ax = {}
         if not model_failed:
             okmods = [m for m in spec.get('lean', []) if m not in failed]
